@@ -219,13 +219,19 @@ class MarkupMachine(Machine):
     # auto transition events commonly a) start with the 'to_' prefix, followed by b) the state name
     # and c) contain a transition from each state to the target state (including the target)
     def _is_auto_transition(self, event):
-        if event.name.startswith('to_') and len(event.transitions) == len(self.states):
-            state_name = event.name[len('to_'):]
-            try:
-                _ = self.get_state(state_name)
-                return True
-            except ValueError:
-                pass
+        if len(event.transitions) != len(self.states):
+            return False
+        prefixes = ['to_']
+        if self.model_attribute != 'state':
+            # Machine.add_states names auto transitions 'to_<model_attribute>_<state>' in that case
+            prefixes.insert(0, 'to_%s_' % self.model_attribute)
+        for prefix in prefixes:
+            if event.name.startswith(prefix):
+                try:
+                    _ = self.get_state(event.name[len(prefix):])
+                    return True
+                except ValueError:
+                    pass
         return False
 
     def _identify_callback(self, name):
